@@ -204,7 +204,8 @@ def run_unit(eng, lang, unit, **kw):
         return [('C18', Ob('no-exception|%s|%s|%s' % (unit, lang, type(exc).__name__), False,
                            dict(case, exception=repr(exc))))], case
     out.append(('C18', Ob('no-exception|%s|%s' % (unit, lang), True)))
-    case['result'] = str(res)[:200]
+    import re as _re
+    case['result'] = _re.sub(r' at 0x[0-9a-f]+', '', str(res))[:200]
     case['depth'] = depth0
     # termination measure of the mutual recursion: the depth counter is restored on exit and every recursive
     # request is issued deeper than the unit was entered (or with the variable generator excluded)
@@ -214,7 +215,7 @@ def run_unit(eng, lang, unit, **kw):
         # the assigned value is requested at the entry depth, but for a non-void type: the dispatcher selects
         # gen_assignment for the void type only, every other generator deepens
         slack = [r for r in slack if r['type'] is None or r['type'] == w.f.get_void_type()]
-    if unit not in ('generate_expr', 'gen_variable_decl') and res is not None:
+    if unit not in ('generate_expr', 'gen_variable_decl', 'select_superclass') and res is not None:
         out.append(('C18', Ob('recursion-progress|%s' % unit, not slack,
                               dict(case, requests_at_entry_depth=[str(r['type']) for r in slack][:3]))))
     if unit == 'gen_new' and depth0 + 1 > 2 * max_depth:
@@ -570,17 +571,55 @@ def c_gen_func_call(w, etype, subtype, res, case):
     return out
 
 
+def u_select_superclass(w, etype, subtype):
+    g = w.g
+    g.namespace = G + ('Newcls',)
+    g._blacklisted_classes = {'Cc'} if subtype else set()
+    w.only_interfaces = w.ref.snap(etype) == w.ref.snap(w.INT)      # reuse the symbolic expected type as a flag
+    return g._select_superclass(w.only_interfaces)
+
+
+def c_select_superclass(w, etype, subtype, res, case):
+    out = []
+    if res is None:
+        return out
+    cls = res.super_cls
+    case = dict(case, selected=cls.name, only_interfaces=w.only_interfaces, blacklisted=sorted(w.g._blacklisted_classes))
+    out.append(('C01', Ob('select_superclass|not-final', not cls.is_final, case)))
+    out.append(('C01', Ob('select_superclass|not-under-construction', cls.name not in w.g._blacklisted_classes
+                          and cls.name != 'Newcls', case)))
+    out.append(('C01', Ob('select_superclass|interface-when-required', cls.is_interface() or not w.only_interfaces, case)))
+    inst = res.super_inst
+    out.append(('C01', Ob('select_superclass|instantiates-the-selected-class', getattr(inst.class_type, 'name', None) == cls.name, case)))
+    if not cls.is_interface():
+        out.append(('C05', Ob('select_superclass|one-constructor-argument-per-field',
+                              inst.args is not None and len(inst.args) == len(cls.fields), case)))
+        m = {p: a for p, a in zip(cls.type_parameters, getattr(inst.class_type, 'type_args', []))}
+        for fld, arg in zip(cls.fields, inst.args or []):
+            want = tp.substitute_type(fld.get_type(), m)
+            if isinstance(arg, Hole) and arg.t is not None:
+                out.append(('C01', Ob('select_superclass|argument-fits-field', assignable(w, arg.t, want),
+                                      dict(case, field=fld.name, field_type=str(want), argument_type=str(arg.t)))))
+    else:
+        out.append(('C05', Ob('select_superclass|no-constructor-call-for-interfaces', inst.args is None, case)))
+    if isinstance(inst.class_type, tp.ParameterizedType):
+        out.append(('C01', Ob('select_superclass|type-arguments-are-types-not-projections',
+                              not any(a.is_wildcard() for a in inst.class_type.type_args), case)))
+    return out
+
+
 UNITS = dict(gen_variable=u_gen_variable, gen_assignment=u_gen_assignment, gen_conditional=u_gen_conditional,
              gen_new=u_gen_new, gen_variable_decl=u_gen_variable_decl, generate_expr=u_generate_expr,
-             gen_field_access=u_gen_field_access, gen_func_call=u_gen_func_call)
+             gen_field_access=u_gen_field_access, gen_func_call=u_gen_func_call, select_superclass=u_select_superclass)
 CHECKS = dict(gen_variable=c_gen_variable, gen_assignment=c_gen_assignment, gen_conditional=c_gen_conditional,
               gen_new=c_gen_new, gen_variable_decl=c_gen_variable_decl, generate_expr=c_generate_expr,
-              gen_field_access=c_gen_field_access, gen_func_call=c_gen_func_call)
+              gen_field_access=c_gen_field_access, gen_func_call=c_gen_func_call, select_superclass=c_select_superclass)
 FUNCS = dict(gen_variable=[Generator.gen_variable], gen_assignment=[Generator.gen_assignment, Generator._get_assignable_vars,
                                                                      Generator._get_classes_with_assignable_fields],
              gen_conditional=[Generator.gen_conditional], gen_new=[Generator.gen_new, Generator._get_subclass],
              gen_variable_decl=[Generator.gen_variable_decl], generate_expr=[Generator.generate_expr, Generator.get_generators],
              gen_field_access=[Generator.gen_field_access, Generator._get_matching_objects, Generator._get_matching_class],
+             select_superclass=[Generator._select_superclass],
              gen_func_call=[Generator._gen_func_call, Generator._get_matching_function_declarations,
                             Generator._get_matching_objects, Generator._is_sigtype_compatible])
 
